@@ -256,6 +256,12 @@ def extract():
         if not re.fullmatch(r"Token::(E|S|EE|ES|SE|SS)", t):
             raise ExtractError("noise.rs:init_x:pattern token " + t)
     E["noise_pattern"] = [t.split("::")[1] for t in toks]
+    b = fn_body(noi, "read_message", "noise.rs:read_message")
+    m = re.search(r"if\s+message\.len\(\)\s*<\s*(\d+)\s*\|\|\s*message\.len\(\)\s*>\s*(\d+)", b)
+    if not m:
+        raise ExtractError("noise.rs:read_message:length guard")
+    E["noise_guard_min"] = int(m.group(1))
+    E["noise_guard_max"] = int(m.group(2))
     b = fn_body(noi, "set_nonce", "noise.rs:set_nonce")
     E["noise_set_nonce_assert_max"] = 1 if re.search(r"assert!\(\s*nonce\s*<\s*u64::MAX\s*\)", b) else 0
 
@@ -273,6 +279,31 @@ def extract():
     E["kr_unlock_scrypt_args_const"] = 1 if a[2:5] == ["SCRYPT_N", "SCRYPT_R", "SCRYPT_P"] else 0
     E["kr_unlock_scrypt_len"] = intlit(a[5], "keyring.rs:unlock:scrypt len")
     E["kr_unlock_nonce_len"] = buf_size(b.replace("let nonce", "let mut nonce"), "nonce", "keyring.rs:unlock:nonce")
+    bu = fn_body(kr, "unlock_private_key", "keyring.rs:unlock_private_key")
+    def rng(expr, item):
+        m = re.search(r"&key_bytes\[\s*(\d*)\s*\.\.\s*(\d*)\s*\]", expr)
+        if not m:
+            raise ExtractError(item)
+        return (int(m.group(1) or 0), int(m.group(2) or 0))
+    m1 = re.search(r"let\s+version_aad\s*=\s*(&key_bytes\[[^\]]*\])", bu)
+    m2 = re.search(r"let\s+salt\s*=\s*(&key_bytes\[[^\]]*\])", bu)
+    m3 = re.search(r"let\s+ciphertext\s*=\s*(&key_bytes\[[^\]]*\])", bu)
+    if not (m1 and m2 and m3):
+        raise ExtractError("keyring.rs:unlock_private_key:slices")
+    E["kr_unlock_version_end"] = rng(m1.group(1), "keyring.rs:unlock:version slice")[1]
+    E["kr_unlock_salt_lo"], E["kr_unlock_salt_hi"] = rng(m2.group(1), "keyring.rs:unlock:salt slice")
+    E["kr_unlock_ct_lo"], E["kr_unlock_ct_hi"] = rng(m3.group(1), "keyring.rs:unlock:ciphertext slice")
+    m = re.search(r"impl\s+TryFrom<&str>\s+for\s+EncodedPk.*?if\s+s\.len\(\)\s*!=\s*(\d+)", kr, re.S)
+    if not m:
+        raise ExtractError("keyring.rs:EncodedPk::try_from:length")
+    E["kr_encoded_pk_try_len"] = int(m.group(1))
+    bd = fn_body(kr, "decode_public_key", "keyring.rs:decode_public_key")
+    m = re.search(r"let\s+pk\s*=\s*&enc_pk_bytes\[\s*\.\.\s*(\d+)\s*\]", bd)
+    m4 = re.search(r"let\s+checksum\s*=\s*&enc_pk_bytes\[\s*(\d+)\s*\.\.\s*\]", bd)
+    m5 = re.search(r"&exp_checksum\[\s*\.\.\s*(\d+)\s*\]", bd)
+    if not (m and m4 and m5):
+        raise ExtractError("keyring.rs:decode_public_key:slices")
+    E["kr_decode_pk_end"], E["kr_decode_ck_start"], E["kr_checksum_len"] = int(m.group(1)), int(m4.group(1)), int(m5.group(1))
     b = fn_body(kr, "encode_public_key", "keyring.rs:encode_public_key")
     E["kr_encoded_pk_len"] = buf_size(b, "encoded", "keyring.rs:encode_public_key:encoded")
     return E
